@@ -126,13 +126,17 @@ pub fn xor_bytes(key: u32, b: &mut [u8]) {
     }
 }
 
+/// 16 bytes with 4-byte alignment: mode structs that hold `u64`/`u128` counters next to the cipher then
+/// have no padding bytes (stale stack data in padding would make the drop scan of C17 meaningless).
 pub struct Toy<BS: BlockSizes, P: ArraySize> {
     pub key: u32,
+    fill: [u32; 3],
     _p: PhantomData<(BS, P)>,
 }
+const FILL: [u32; 3] = [0x0101_0101, 0x0202_0202, 0x0303_0303];
 impl<BS: BlockSizes, P: ArraySize> Clone for Toy<BS, P> {
     fn clone(&self) -> Self {
-        Self { key: self.key, _p: PhantomData }
+        Self { key: self.key, fill: self.fill, _p: PhantomData }
     }
 }
 impl<BS: BlockSizes, P: ArraySize> KeySizeUser for Toy<BS, P> {
@@ -140,7 +144,7 @@ impl<BS: BlockSizes, P: ArraySize> KeySizeUser for Toy<BS, P> {
 }
 impl<BS: BlockSizes, P: ArraySize> KeyInit for Toy<BS, P> {
     fn new(key: &Key<Self>) -> Self {
-        Self { key: key32(key), _p: PhantomData }
+        Self { key: key32(key), fill: FILL, _p: PhantomData }
     }
 }
 impl<BS: BlockSizes, P: ArraySize> BlockSizeUser for Toy<BS, P> {
